@@ -653,6 +653,74 @@ func clDeleteNodeWinner(c *Ctx) {
 		c.Check(cleared, fn, in, cnt.in(fn, what),
 			"the free worker / collection worker walks GetLink() from the node it is given: a node that still carries a link (e.g. from a user NodeList, or an older list) drags live nodes into the free list (double free / free of linked nodes)")
 	}
+	// the winner of the deadSn CAS appends the node to its writer's garbage list
+	for _, in := range fi.Instrs {
+		k, on := atomicOnField(in, fDead)
+		if !on || k != "CAS" {
+			continue
+		}
+		casv := in.(ssa.Value)
+		// the block entered when the CAS succeeded
+		var win *ssa.BasicBlock
+		for _, b := range fn.Blocks {
+			if len(b.Instrs) == 0 {
+				continue
+			}
+			if ifi, ok := b.Instrs[len(b.Instrs)-1].(*ssa.If); ok {
+				f := normFact(ifi.Cond, true)
+				if fi.resolveCell(f.V) == casv || f.V == casv {
+					if f.Val {
+						win = b.Succs[0]
+					} else {
+						win = b.Succs[1]
+					}
+				}
+			}
+		}
+		if win == nil {
+			c.Check(false, fn, in, "winner of the deadSn CAS appends the node to the garbage list", "the outcome of the delete stamp is not branched on")
+			continue
+		}
+		isTailX := func(y ssa.Instruction) bool {
+			st, ok := y.(*ssa.Store)
+			if !ok {
+				return false
+			}
+			f, _ := addrField(st.Addr)
+			return f == fTail && strip(st.Val) == strip(x)
+		}
+		c.Check(fi.PathFromBlock(win, isReturn, isTailX) == nil, fn, in, "winner makes the node the new tail of its garbage list on every path",
+			"a version whose delete stamp was won is not put on the writer's garbage list: no snapshot will ever own it and it is never collected")
+		linked, headed := false, false
+		for _, y := range fi.Instrs {
+			if p.IsCall(y, setLink) {
+				a := callOf(y).Args
+				if f, _ := loadedField(a[0]); f == fTail && strip(a[1]) == strip(x) {
+					if fi.guardedByCmp(y, token.NEQ, loadsField(fTail), isNilConst) {
+						// old tail linked before the tail moves on
+						okOrder := true
+						for _, z := range fi.Instrs {
+							if isTailX(z) && z.Block() == y.Block() && fi.idx[z] < fi.idx[y] {
+								okOrder = false
+							}
+						}
+						linked = okOrder
+					}
+				}
+			}
+			if st, ok := y.(*ssa.Store); ok {
+				if f, _ := addrField(st.Addr); f == fHead {
+					v := strip(st.Val)
+					fromTail, _ := loadedField(v)
+					if (v == strip(x) || fromTail == fTail) && fi.guardedByCmp(y, token.EQL, loadsField(fTail), isNilConst) {
+						headed = true
+					}
+				}
+			}
+		}
+		c.Check(linked, fn, in, "non-empty list: the old tail is linked to the node before the tail moves", "the garbage list is cut: everything appended before is unreachable from the new tail / the node is not reachable from the head")
+		c.Check(headed, fn, in, "empty list: the node becomes head as well", "the first garbage node of an epoch is lost: the snapshot's list starts nowhere")
+	}
 	// the CAS: 0 -> current epoch
 	for _, in := range fi.Instrs {
 		if k, on := atomicOnField(in, fDead); on && k == "CAS" {
